@@ -19,6 +19,7 @@ import (
 	"net"
 	"os"
 	"sort"
+	"strings"
 	"sync"
 	"sync/atomic"
 	"testing"
@@ -87,6 +88,9 @@ type vfC17Rig struct {
 	killedPre map[int]bool // killed while not (yet) in the pool
 	nextFree  int
 	failMode  int
+	closeErr  int32 // != 0: the sockets' Close() reports an error
+	lockDead  int32 // != 0: pool.mu could not be taken for a long time (somebody deadlocked holding it)
+	lockSig   string
 	inDial    int32
 	lastEv    int64 // unix nano of the last hook / dial activity
 	calls     sync.WaitGroup
@@ -149,7 +153,7 @@ func (r *vfC17Rig) dial(ctx context.Context) (*DialedHost, error) {
 		r.hsConns = append(r.hsConns, c)
 		r.mu.Unlock()
 		r.sc.tr.Emit("h_dial_fail", "obj", 0, "a", id)
-		return &DialedHost{Conn: c}, nil
+		return &DialedHost{Conn: &vfC17Conn{vfMemConn: c, failClose: &r.closeErr}}, nil
 	}
 	c.onClose = func() {
 		if prev != nil {
@@ -162,7 +166,7 @@ func (r *vfC17Rig) dial(ctx context.Context) (*DialedHost, error) {
 	r.conns[id] = &vfC17RConn{mem: c, nc: nc}
 	r.mu.Unlock()
 	r.sc.tr.Emit("h_dial_ok", "obj", 0, "a", id)
-	return &DialedHost{Conn: c}, nil
+	return &DialedHost{Conn: &vfC17Conn{vfMemConn: c, failClose: &r.closeErr}}, nil
 }
 
 // onEvent receives the pool hooks of this rig's pool; the two points outside the lock park.
@@ -210,16 +214,56 @@ func (r *vfC17Rig) take(kind string, match func(*vfC17Waiter) bool) *vfC17Waiter
 
 func (r *vfC17Rig) idOfConn(c *Conn) int {
 	for id, rc := range r.conns {
-		if net.Conn(rc.mem) == c.conn {
+		if rc.mem == vfC17MemOf(c.conn) {
 			return id
 		}
 	}
 	return 998
 }
 
+// rlock takes pool.mu for reading; it gives up after 1.5 s (no critical section of the pool lasts that
+// long: somebody sits on the lock for good) and records who.
+func (r *vfC17Rig) rlock() bool {
+	if atomic.LoadInt32(&r.lockDead) != 0 {
+		return false
+	}
+	deadline := time.Now().Add(1500 * time.Millisecond)
+	for !r.pool.mu.TryRLock() {
+		if time.Now().After(deadline) {
+			if atomic.CompareAndSwapInt32(&r.lockDead, 0, 1) {
+				r.lockSig = vfC17LockSig(vfGoroutineDump(), r.pool)
+			}
+			return false
+		}
+		time.Sleep(200 * time.Microsecond)
+	}
+	return true
+}
+
+// vfC17LockSig names the goroutine that waits for pool.mu while it already holds it: a pool method that
+// re-enters HandleError through Conn.Close.
+func vfC17LockSig(dump string, pool *hostConnPool) string {
+	for _, g := range strings.Split(dump, "\n\n") {
+		if !strings.Contains(g, "hostConnPool).HandleError") {
+			continue
+		}
+		switch {
+		case strings.Contains(g, "hostConnPool).Close"):
+			return "Close-reenters-HandleError"
+		case strings.Contains(g, "hostConnPool).connect"):
+			return "connect-late-arrival-reenters-HandleError"
+		case strings.Contains(g, "hostConnPool).fill"):
+			return "fill-reenters-HandleError"
+		}
+	}
+	return "unknown"
+}
+
 func (r *vfC17Rig) proj() vfC17Proj {
 	p := vfC17Proj{Conns: []int{}, Open: []int{}, Gate: []string{}, Connected: []int{}}
-	r.pool.mu.RLock()
+	if !r.rlock() {
+		return p
+	}
 	p.Filling, p.Closed = r.pool.filling, r.pool.closed
 	pc := append([]*Conn(nil), r.pool.conns...)
 	r.pool.mu.RUnlock()
@@ -367,7 +411,9 @@ func (r *vfC17Rig) runFree(quiet time.Duration, max time.Duration) bool {
 	}
 	deadline := time.Now().Add(max)
 	for {
-		r.pool.mu.RLock()
+		if !r.rlock() {
+			return false
+		}
 		filling := r.pool.filling
 		r.pool.mu.RUnlock()
 		idle := time.Since(time.Unix(0, atomic.LoadInt64(&r.lastEv)))
@@ -482,6 +528,9 @@ func (r *vfC17Rig) release(d *vfC17Dialer) {
 func vfC17RunSchedule(sess *Session, d *vfC17Dialer, cl *vfCluster, sch *vfC17Schedule, failMode int) (recs []vfC17Rec, divergence string, herr error) {
 	r := vfC17NewRig(sess, d, cl, sch.N, sch.Size)
 	r.failMode = failMode
+	if (sch.N/2)%2 == 1 {
+		r.closeErr = 1 // every socket of this schedule reports an error from Close()
+	}
 	defer r.release(d)
 	for k, st := range sch.Steps {
 		if e := r.exec(st); e != nil {
@@ -495,20 +544,37 @@ func vfC17RunSchedule(sess *Session, d *vfC17Dialer, cl *vfCluster, sch *vfC17Sc
 		}
 	}
 	quiet := 40 * time.Millisecond
-	if !r.runFree(quiet, 10*time.Second) {
+	if !r.runFree(quiet, 10*time.Second) && atomic.LoadInt32(&r.lockDead) == 0 {
 		herr = fmt.Errorf("schedule %d did not become quiescent: %s", sch.N, r.proj())
 	}
-	end := r.snapshot("h_end", true)
-	ok, _ := vfWithin(10*time.Second, r.pool.Close)
-	if !ok {
-		herr = fmt.Errorf("schedule %d: pool.Close did not return", sch.N)
+	var end, fin vfC17Rec
+	if atomic.LoadInt32(&r.lockDead) == 0 {
+		end = r.snapshot("h_end", true)
+		ok, _ := vfWithin(3*time.Second, r.pool.Close)
+		if !ok {
+			r.rlock() // classifies the hang when it is a lock held for good
+			if atomic.LoadInt32(&r.lockDead) == 0 {
+				herr = fmt.Errorf("schedule %d: pool.Close did not return", sch.N)
+			}
+		}
 	}
-	r.runFree(quiet, 10*time.Second)
-	okc, _ := vfWithin(10*time.Second, r.calls.Wait)
-	if !okc && herr == nil {
-		herr = fmt.Errorf("schedule %d: fill()/Close() callers did not return", sch.N)
+	if atomic.LoadInt32(&r.lockDead) == 0 {
+		r.runFree(quiet, 10*time.Second)
+		okc, _ := vfWithin(10*time.Second, r.calls.Wait)
+		if !okc && herr == nil && atomic.LoadInt32(&r.lockDead) == 0 {
+			herr = fmt.Errorf("schedule %d: fill()/Close() callers did not return", sch.N)
+		}
 	}
-	fin := r.snapshot("h_final", false)
+	if atomic.LoadInt32(&r.lockDead) == 0 {
+		fin = r.snapshot("h_final", false)
+	}
+	if atomic.LoadInt32(&r.lockDead) != 0 {
+		// a pool method deadlocked on pool.mu: Close / Pick / Size of this pool never return again
+		herr = nil
+		dead := vfC17Rec{Sched: sch.N, Ev: "h_lock_dead", Size: sch.Size, Conns: []int{}, Open: []int{}, Dead: []int{}, Q: r.lockSig}
+		end, fin = dead, dead
+		fin.Ev = "h_skip"
+	}
 	recs = append(recs, vfC17Rec{Sched: sch.N, Ev: "init", Size: sch.Size, Conns: []int{}, Open: []int{}, Dead: []int{}})
 	for _, e := range r.sc.tr.Events() {
 		a, _ := e["a"].(int)
